@@ -166,3 +166,81 @@ func receiverLane(c *ev.Ctx) {
 	}
 	c.Add("receiver_lane_requests", n)
 }
+
+// Logging lane: the same promise with the gateway's own logging switched on (--access-log, --admin-access-log): the
+// loggers run for every request, also for those that are refused before any middleware has learnt who is asking.
+// A fixed set of requests that are refused early (broken percent escapes, dot segments, no authorization, unknown
+// key, wrong signature) and a few ordinary ones are sent; after each the process must be alive and serving.
+func loggingLane(c *ev.Ctx) {
+	if !c.Want("logging") {
+		return
+	}
+	dir := fx.UniqueDir("c20-logs")
+	env, err := fx.New("c20l", gw.Config{Versioning: true, ExtraArgs: []string{"--access-log", dir + "/access.log", "--admin-access-log", dir + "/admin.log"}}, 1)
+	if err != nil {
+		c.Inconclusive("gateway start (logging lane): " + err.Error())
+		return
+	}
+	defer env.Close()
+	cl := env.Client(0)
+	cl.CreateBucket("logged")
+	cl.PutObject("logged", "doc", []byte("x"))
+	raw := func(target string, hdr ...string) string {
+		return "GET " + target + " HTTP/1.1\r\nHost: " + env.GWs[0].Addr + "\r\n" + strings.Join(hdr, "") + "Connection: close\r\n\r\n"
+	}
+	type probeT struct {
+		name string
+		wire string
+		req  *s3c.Req
+	}
+	probes := []probeT{
+		{"bad-percent-escape", raw("/%zz"), nil},
+		{"bad-percent-escape-in-key", raw("/logged/%"), nil},
+		{"encoded-dot-segment", raw("/..%2fx"), nil},
+		{"dot-segments", raw("/logged/../logged/doc"), nil},
+		{"no-authorization", raw("/logged/doc"), nil},
+		{"empty-authorization", raw("/logged/doc", "Authorization: \r\n"), nil},
+		{"garbage-authorization", raw("/logged/doc", "Authorization: AWS4-HMAC-SHA256 garbage\r\n"), nil},
+		{"admin-no-authorization", "PATCH /list-users HTTP/1.1\r\nHost: " + env.GWs[0].Addr + "\r\nConnection: close\r\n\r\n", nil},
+		{"options", "OPTIONS /logged HTTP/1.1\r\nHost: " + env.GWs[0].Addr + "\r\nConnection: close\r\n\r\n", nil},
+		{"unknown-access-key", "", &s3c.Req{Method: "GET", Path: "/logged/doc", AK: "AKIAUNKNOWNKEY0000"}},
+		{"wrong-secret", "", &s3c.Req{Method: "GET", Path: "/logged/doc", SK: "wrong-secret-1"}},
+		{"valid-get", "", &s3c.Req{Method: "GET", Path: "/logged/doc"}},
+		{"valid-admin", "", &s3c.Req{Method: "PATCH", Path: "/list-users"}},
+		{"missing-key", "", &s3c.Req{Method: "GET", Path: "/logged/nothing-here"}},
+	}
+	for _, p := range probes {
+		id := "logging/" + p.name
+		if !c.Want(id) {
+			continue
+		}
+		answer := ""
+		if p.req != nil {
+			r := cl.Do(p.req)
+			answer = r.String()
+		} else {
+			cn, err := net.DialTimeout("tcp", env.GWs[0].Addr, 5*time.Second)
+			if err != nil {
+				answer = "dial: " + err.Error()
+			} else {
+				cn.SetDeadline(time.Now().Add(10 * time.Second))
+				cn.Write([]byte(p.wire))
+				buf := make([]byte, 512)
+				n, _ := cn.Read(buf)
+				cn.Close()
+				answer, _, _ = strings.Cut(string(buf[:n]), "\r\n")
+			}
+		}
+		c.Eval(1)
+		time.Sleep(50 * time.Millisecond)
+		if i, cr := env.Dead(); cr != nil {
+			c.Violation("logging:"+p.name+":gateway-died:"+cr.TopFrame, id, map[string]any{"gateway": i, "crash": cr.Message, "request": p.name, "answer": answer, "flags": "--access-log --admin-access-log"})
+			return
+		}
+		if r := cl.Do(&s3c.Req{Method: "GET", Path: "/", FreshConn: true, Watchdog: 20 * time.Second}); r.Err != nil || r.Status != 200 {
+			c.Violation("logging:"+p.name+":gateway-stops-serving", id, map[string]any{"list_buckets": r.String(), "request": p.name, "answer": answer})
+			return
+		}
+		c.Distinct("logging|" + p.name)
+	}
+}
